@@ -79,6 +79,14 @@ func replayMain(args []string) {
 	w := NewWorld(out, st)
 	g := &Kern{out, st}
 	fmt.Fprintf(out, "transcript replay replay 0\n")
+	// a script step that panics outside a guarded call (the implementation broke a promise the replay relies on)
+	// is reported in the transcript, never as a crash of the harness
+	defer func() {
+		if e := recover(); e != nil {
+			fmt.Fprintf(out, "gencrash %s\n", strings.ReplaceAll(fmt.Sprint(e), " ", "_"))
+			out.Flush()
+		}
+	}()
 	w.Case("replay")
 	vmap := map[int]int{}
 	mv := func(s string) int {
@@ -219,19 +227,27 @@ func replayMain(args []string) {
 			kmode = "rt"
 		case "rt":
 			kxs = append(kxs, parseCell(t[1], kctx[0]))
-		case "bd":
-			b := atoi(t[1])
-			bd := signal.BitDepth(b)
-			fmt.Fprintf(out, "bd %d %d %d %d\n", b, bd.MaxSignedValue(), bd.MaxUnsignedValue(), bd.MinSignedValue())
-		case "sv":
-			v, _ := strconv.ParseInt(t[2], 10, 64)
-			fmt.Fprintf(out, "sv %s %d %d\n", t[1], v, signal.BitDepth(atoi(t[1])).SignedValue(v))
-		case "uv":
-			v, _ := strconv.ParseUint(t[2], 10, 64)
-			fmt.Fprintf(out, "uv %s %d %d\n", t[1], v, signal.BitDepth(atoi(t[1])).UnsignedValue(v))
-		case "scale":
-			k := kindOf(t[1])
-			fmt.Fprintf(out, "scale %s %s %s %s\n", t[1], t[2], t[3], cellString(scaleCall(k, atoi(t[2]), atoi(t[3])), k))
+		case "bd", "sv", "uv", "scale":
+			// (none of these functions panics: a panic is reported, not propagated)
+			if p := try(func() {
+				switch t[0] {
+				case "bd":
+					b := atoi(t[1])
+					bd := signal.BitDepth(b)
+					fmt.Fprintf(out, "bd %d %d %d %d\n", b, bd.MaxSignedValue(), bd.MaxUnsignedValue(), bd.MinSignedValue())
+				case "sv":
+					v, _ := strconv.ParseInt(t[2], 10, 64)
+					fmt.Fprintf(out, "sv %s %d %d\n", t[1], v, signal.BitDepth(atoi(t[1])).SignedValue(v))
+				case "uv":
+					v, _ := strconv.ParseUint(t[2], 10, 64)
+					fmt.Fprintf(out, "uv %s %d %d\n", t[1], v, signal.BitDepth(atoi(t[1])).UnsignedValue(v))
+				case "scale":
+					k := kindOf(t[1])
+					fmt.Fprintf(out, "scale %s %s %s %s\n", t[1], t[2], t[3], cellString(scaleCall(k, atoi(t[2]), atoi(t[3])), k))
+				}
+			}); p != "" {
+				fmt.Fprintf(out, "c16panic %s %s\n", strings.Join(t, "_"), strings.ReplaceAll(p, " ", "_"))
+			}
 		case "freq":
 			fmt.Fprintln(out, line)
 		case "dur":
